@@ -24,7 +24,7 @@ INST = os.path.join(HERE, "c18_inst.C")
 LIB_DIRS = ["src/kernel/gmp++", "src/kernel/integer", "src/kernel/rational", "src/kernel/memory", "src/kernel/system", "src/kernel/bstruct",
             "src/library/poly1", "src/library/tools"]          # (givindeter.C, givdegree.C, givops.C: Indeter / Degree members used by Poly1Dom)
 SKIP_C = {"gmp++_int.C"}              # only #includes the other gmp++_int_*.C files
-VERSION = "c18-values-v19"
+VERSION = "c18-values-v21"
 
 # ---- what a write to a static may be.  Anything that is not matched here is reported (site = the function, klass = the statics).
 # (regular expression on "Class::function", set of statics or None = any, category, reason)
@@ -478,7 +478,7 @@ def build(log=None):
             "decls_indexed": len(idx.decl), "functions_with_body": len(ops), "template_patterns_skipped": npat, "families_in_dump": sorted(b.get("name") for b in fams.values()),
             "reachable_from_families": len(reach), "library_sources": [os.path.relpath(p, vf.REPO) for p in lib_sources()],
             "calls_resolved": an.stats["calls_resolved"], "calls_unresolved": an.stats["calls_unresolved"],
-            "calls_seen": n_calls, "repo_callees_without_body": sorted(set(repo_nobody)), "external_callees_effect_free_by_table": ext_free,
+            "thread_local_variables": [list(t) for t in tls_statics(objs)], "calls_seen": n_calls, "repo_callees_without_body": sorted(set(repo_nobody)), "external_callees_effect_free_by_table": ext_free,
             "external_callees_unsafe": ext_unsafe, "external_callees_not_in_table": ext_unknown}
     res = {"ops": ops, "meta": meta}
     tmp = cp + ".tmp%d" % os.getpid()
@@ -513,6 +513,37 @@ def decide(res):
         else:
             doc.append((o, d[0], d[1]))
     return off, doc
+
+
+def process_wide_statics():
+    """the statics a documented setter / seeding function writes: configuration every thread must SEE (one object per process)"""
+    out = set()
+    for rx, names, cat, why in DOCUMENTED_WRITERS:
+        if names and (cat == "setter" or cat.startswith("random")):
+            out |= set(n for n in names if not n.startswith("libc:") and n not in ("_seed", "_g", "gmp_randseed"))
+    return sorted(out)
+
+
+def tls_statics(objs):
+    """variables of the library with thread storage duration (thread_local / __thread): [(name, owner, tls kind)]"""
+    out = []
+
+    def rec(n, owner):
+        k = n.get("kind")
+        if k in om.CLASS_KINDS or k == "NamespaceDecl" or k in om.FUNC_KINDS:
+            owner = n.get("name") or owner
+        if k == "VarDecl" and n.get("tls"):
+            out.append([n.get("name"), owner or "", n.get("tls")])
+        for c in om.kids(n):
+            rec(c, owner)
+    for o in objs:
+        rec(o, "")
+    return sorted(set(tuple(x) for x in out))
+
+
+def tls_offenders(res):
+    pw = set(process_wide_statics())
+    return sorted(set("%s::%s" % (t[1], t[0]) for t in res["meta"].get("thread_local_variables", []) if t[0] in pw))
 
 
 def atomic_sites(res):
@@ -580,6 +611,15 @@ def emit_coq(res):
     lines.append("  forall s, In s atomic_sites -> as_fresh s = false -> ~ In (as_name s) %s -> forall a, In a (as_accesses s) -> a = ARmw." % aoffl)
     lines.append("Lemma source_atomic_updates_single_rmw : SourceAtomicUpdatesSingleRmw_stmt.")
     lines.append("Proof. exact (split_list_rmw atomic_sites _ decide_atomic). Qed.")
+    lines.append("")
+    lines.append("(* documented process-wide configuration (written by the documented setters / seeding functions) must be ONE object per process: the")
+    lines.append("   variables of the library with thread storage duration (VarDecl tls kind of the clang AST), and those among them that are such statics *)")
+    lines.append("Definition process_wide_statics : list string := %s." % om.coq_list([om.coq_str(x) for x in process_wide_statics()]))
+    lines.append("Definition thread_local_variables : list string := %s." % om.coq_list([om.coq_str(t[0]) for t in res["meta"].get("thread_local_variables", [])]))
+    lines.append("Definition Decide_tls_stmt : Prop := filter (fun v => existsb (String.eqb v) process_wide_statics) thread_local_variables = %s." %
+                 om.coq_list([om.coq_str(t[0]) for t in res["meta"].get("thread_local_variables", []) if t[0] in set(process_wide_statics())]))
+    lines.append("Lemma decide_tls : Decide_tls_stmt.")
+    lines.append("Proof. vm_compute. reflexivity. Qed.")
     lines.append("")
     lines.append("(* Example for C18_domain_program: the generated class descriptions contain claimed methods accepted by method_rf_b *)")
     lines.append("Definition DomainExample_stmt : Prop := existsb (fun d => existsb (fun m => claimed_b m && method_rf_b m) (cd_methods d)) all_descs = true.")
